@@ -25,38 +25,6 @@ impl PoolKey {
 pub open spec fn sat128(x: int) -> int { if x > u128::MAX { u128::MAX as int } else { x } }
 /// swap_many: add both inputs (saturating), pay out floor(in x other/this x 995/1000) of the other side
 pub open spec fn swap_out(dx: int, this_after: int, other_after: int) -> int { sat128((dx * other_after * 995) / (this_after * 1000)) }
-impl PoolState {
-    pub fn new_empty() -> (r: PoolState) ensures r.lefts == 0 && r.rights == 0 && r.price_accum == 0 && r.liqs == 0 { PoolState { lefts: 0, rights: 0, price_accum: 0, liqs: 0 } }
-    /// Ratio::new(lefts', rights') and the division by it panic when a side is zero after the inputs are added
-    #[verifier::external_body]
-    pub fn swap_many(&mut self, lefts: u128, rights: u128) -> (r: (u128, u128))
-        requires sat128(old(self).lefts + lefts) > 0, sat128(old(self).rights + rights) > 0
-        ensures ({ let l = sat128(old(self).lefts + lefts); let rr = sat128(old(self).rights + rights);
-                   r.0 as int == swap_out(rights as int, rr, l) && r.1 as int == swap_out(lefts as int, l, rr)
-                   && final(self).lefts as int == l - r.0 && final(self).rights as int == rr - r.1 && final(self).liqs == old(self).liqs
-                   && final(self).lefts > 0 && final(self).rights > 0 })
-    { unimplemented!() }
-    /// liquidity minted: the left amount for a fresh pool, else floor(sqrt(liqs^2 x dl x dr / (lefts x rights))); divides by lefts x rights
-    #[verifier::external_body]
-    pub fn deposit(&mut self, lefts: u128, rights: u128) -> (r: u128)
-        requires old(self).liqs != 0 ==> old(self).lefts > 0 && old(self).rights > 0
-        ensures final(self).price_accum == old(self).price_accum,
-                old(self).liqs == 0 ==> r == lefts && final(self).lefts == lefts && final(self).rights == rights && final(self).liqs == lefts,
-                old(self).liqs != 0 ==> final(self).liqs as int == sat128(old(self).liqs + r) && final(self).lefts as int == sat128(old(self).lefts + lefts) && final(self).rights as int == sat128(old(self).rights + rights),
-    { unimplemented!() }
-    /// implied_price = Ratio::new(lefts, rights): panics on a zero right reserve
-    #[verifier::external_body]
-    pub fn implied_price(&self) -> (r: num::BigRational) requires self.rights > 0 ensures r@ == (num::rational::Frac { n: self.lefts as int, d: self.rights as int }) { unimplemented!() }
-    /// assert!(self.liqs >= liqs); Ratio::new(liqs, self.liqs) panics on an empty pool
-    #[verifier::external_body]
-    pub fn withdraw(&mut self, liqs: u128) -> (r: (u128, u128))
-        requires old(self).liqs >= liqs, old(self).liqs > 0
-        ensures final(self).liqs == old(self).liqs - liqs,
-                final(self).liqs == 0 ==> r.0 == old(self).lefts && r.1 == old(self).rights && final(self).lefts == 0 && final(self).rights == 0,
-                final(self).liqs != 0 ==> r.0 as int == (old(self).lefts * liqs) / (old(self).liqs as int) && r.1 as int == (old(self).rights * liqs) / (old(self).liqs as int)
-                    && final(self).lefts == old(self).lefts - r.0 && final(self).rights == old(self).rights - r.1,
-    { unimplemented!() }
-}
 pub assume_specification<T> [bool::then_some::<T>] (b: bool, t: T) -> (r: Option<T>) ensures r == (if b { Some(t) } else { None::<T> });
 impl Denom {
     #[verifier::external_body] pub fn to_bytes(self) -> (r: Bytes) ensures r@ == denom_bytes(self) { unimplemented!() }
